@@ -746,39 +746,98 @@ func (l *linForm) eval(e ast.Expr, depth int) (lform, bool) {
 }
 
 func c14Index(p *core.Program, r *core.Report) {
-	for name, w := range map[string]string{"offerHashed": "32", "offerHashedLong": "64"} {
+	for name, w := range map[string]int64{"offerHashed": 32, "offerHashedLong": 64} {
 		fi := p.Method("util/hll", "HyperLogLog", name)
 		c := "util/hll.(*HyperLogLog)." + name
-		if fi == nil || fi.Decl.Body == nil {
+		if fi == nil || fi.Decl.Body == nil || fi.Decl.Type.Params.NumFields() != 1 {
 			r.Undec("C14.index", c, "-", "not found")
 			continue
 		}
-		rn := recvName(fi)
-		src := strings.ReplaceAll(stripSpaces(nodeStringFull(fi.Decl.Body)), rn+".", "")
-		var probs []string
-		if !strings.Contains(src, "hashedValue>>("+w+"-log2m)") {
-			probs = append(probs, "the register index is not the top log2m bits of the hash (hash >> ("+w+" - log2m))")
+		info := fi.Pkg.TypesInfo
+		hobj := info.Defs[fi.Decl.Type.Params.List[0].Names[0]]
+		isHash := func(e ast.Expr) bool {
+			id, ok := stripConvs(info, e).(*ast.Ident)
+			return ok && info.ObjectOf(id) == hobj
 		}
-		// the rank: a leading-zero count whose argument or-s the guard bit into hash << log2m
+		isLog2m := func(e ast.Expr) bool {
+			e = stripConvs(info, e)
+			if sel, ok := e.(*ast.SelectorExpr); ok {
+				return sel.Sel.Name == "log2m"
+			}
+			if id, ok := e.(*ast.Ident); ok {
+				// a local holding the field
+				var def ast.Expr
+				ast.Inspect(fi.Decl.Body, func(n ast.Node) bool {
+					if as, ok := n.(*ast.AssignStmt); ok && len(as.Lhs) == 1 && len(as.Rhs) == 1 {
+						if lid, ok := as.Lhs[0].(*ast.Ident); ok && info.ObjectOf(lid) == info.ObjectOf(id) {
+							def = as.Rhs[0]
+						}
+					}
+					return true
+				})
+				if sel, ok := stripConvs(info, def).(*ast.SelectorExpr); ok && def != nil {
+					return sel.Sel.Name == "log2m"
+				}
+			}
+			return false
+		}
+		var probs []string
+		// index: hash >> (W - log2m), W the width of the hash
+		idxOK := false
 		rankOK := false
 		ast.Inspect(fi.Decl.Body, func(n ast.Node) bool {
-			call, ok := n.(*ast.CallExpr)
-			if !ok || len(call.Args) != 1 {
-				return true
-			}
-			fn := strings.ToLower(stripSpaces(types.ExprString(call.Fun)))
-			if !(strings.Contains(fn, "clz") || strings.Contains(fn, "leadingzeros")) {
-				return true
-			}
-			a := strings.ReplaceAll(stripSpaces(types.ExprString(call.Args[0])), rn+".", "")
-			if strings.Contains(a, "hashedValue<<log2m") && strings.Contains(a, "|") && strings.Contains(a, "1<<(log2m-1)") {
-				rankOK = true
+			switch v := n.(type) {
+			case *ast.BinaryExpr:
+				if v.Op == token.SHR && isHash(v.X) {
+					if sub, ok := stripConvs(info, v.Y).(*ast.BinaryExpr); ok && sub.Op == token.SUB && isLog2m(sub.Y) {
+						if k, ok := constIntOf(info, sub.X); ok && k == w {
+							idxOK = true
+						} else if ok {
+							probs = append(probs, fmt.Sprintf("the register index shifts by %d - log2m, but the hash has %d bits", k, w))
+						}
+					}
+				}
+			case *ast.CallExpr:
+				fn := strings.ToLower(stripSpaces(types.ExprString(v.Fun)))
+				if !(strings.Contains(fn, "clz") || strings.Contains(fn, "leadingzeros")) || len(v.Args) != 1 {
+					return true
+				}
+				// argument contains (hash << log2m) and the guard bit 1 << (log2m - 1), or-ed
+				hasShift, hasGuard, hasOr := false, false, false
+				ast.Inspect(v.Args[0], func(m ast.Node) bool {
+					be, ok := m.(*ast.BinaryExpr)
+					if !ok {
+						return true
+					}
+					switch be.Op {
+					case token.OR:
+						hasOr = true
+					case token.SHL:
+						if isHash(be.X) && isLog2m(be.Y) {
+							hasShift = true
+						}
+						if k, ok := constIntOf(info, stripConvs(info, be.X)); ok && k == 1 {
+							if sub, ok := stripConvs(info, be.Y).(*ast.BinaryExpr); ok && sub.Op == token.SUB && isLog2m(sub.X) {
+								if one, ok := constIntOf(info, sub.Y); ok && one == 1 {
+									hasGuard = true
+								}
+							}
+						}
+					}
+					return true
+				})
+				if hasShift && hasGuard && hasOr {
+					rankOK = true
+				}
 			}
 			return true
 		})
-		if !rankOK {
-			probs = append(probs, "the rank is not clz((hash << log2m) | 1 << (log2m-1) ...): without the guard bit a hash whose remaining bits are all zero gets a rank that overflows the "+"5-bit register")
+		if !idxOK {
+			probs = append(probs, fmt.Sprintf("the register index is not the top log2m bits of the hash (hash >> (%d - log2m))", w))
 		}
-		fileProbs(r, "C14.index", c, p.Pos(fi.Decl.Pos()), probs, "top-bits index; guarded rank")
+		if !rankOK {
+			probs = append(probs, "the rank is not clz((hash << log2m) | 1 << (log2m-1) ...): without the guard bit a hash whose remaining bits are all zero gets a rank that overflows the 5-bit register")
+		}
+		fileProbs(r, "C14.index", c, p.Pos(fi.Decl.Pos()), uniq(probs), "top-bits index; guarded rank")
 	}
 }
